@@ -36,6 +36,11 @@ pub struct SequenceNumber(i64);
 impl SequenceNumber {
   pub const UNKNOWN: Self = Self((u32::MAX as i64) << 32);
 
+  // Sequence numbers above this are not accepted from the wire. Nobody is going
+  // to get there by counting from 1, and arithmetic on accepted sequence numbers
+  // (plus one, plus the width of a number set, ...) stays far from overflow.
+  pub const MAX_PLAUSIBLE: Self = Self(i64::MAX >> 2);
+
   pub fn new(value: i64) -> Self {
     Self::from(value)
   }
